@@ -92,6 +92,28 @@ def check_receivers(ctx, sc, r=None):
                 return
 
 
+def corridor_scene(rng):
+    """A long narrow room (1 x L x 1 m, L = 6..9, patch size 1): patches many patch-sides away from a receiver near one end
+    (the compact rooms of `gen_scene` never have a patch farther than a few sides)."""
+    sc = energy.gen_scene(rng, small=True, multi_dir=False)
+    L = float(rng.uniform(6.1, 8.9))
+    sides = [1.0, L, 1.0]
+    if rng.random() < 0.5:
+        sides = [L, 1.0, 1.0]
+    sc['sides'], sc['patch'] = sides, 1.0
+    diag = float(np.linalg.norm(sides))
+    sc['K'] = min(sc['K'], 1)
+    sc['long_bins'] = int(np.ceil((sc['K'] + 3) * diag / sc['c'] / sc['dt'])) + 3
+    sc['S'] = sc['long_bins']
+    lo = np.array([0.15, 0.15, 0.15])
+    hi = np.array(sides) - 0.15
+    sc['src'] = lo + (hi - lo) * rng.uniform(0.3, 0.7, size=3)
+    ends = rng.uniform(0.05, 0.2, size=(2, 3))
+    ends[1] = 1 - ends[1]
+    sc['recs'] = np.array([lo + (hi - lo) * e for e in ends])
+    return sc
+
+
 def run(ctx):
     n_k = 30 if ctx.tier == 'quick' else 800
     kernels.corr_collect(ctx, [kernels.gen_collect_case(ctx.rng) for _ in range(n_k)])
@@ -102,6 +124,8 @@ def run(ctx):
         for rec in sc['recs']:
             pipeline.corr_collect(ctx, r, rec)
         check_receivers(ctx, sc, r)
+    check_receivers(ctx, corridor_scene(ctx.rng))
+    ctx.count('scenes.corridor')
     sc = energy.gen_scene(ctx.rng, small=True, multi_dir=False, att_zero=False)
     endtoend.corr_end_to_end(ctx, sc)
 
@@ -111,6 +135,8 @@ def oracle(ctx, budget_s=60):
     while t.s() < budget_s and not [v for v in ctx.violations if not v['signature'].startswith('receiver-wrap')]:
         sc = energy.gen_scene(ctx.rng, small=True)
         check_receivers(ctx, sc)
+        if not ctx.violations:
+            check_receivers(ctx, corridor_scene(ctx.rng))
 
 
 def replay(ctx, rp):
